@@ -100,5 +100,18 @@ Settled == \A w \in W : [](wr[w].pc = "done" => [](dest[w] = "new"))
 
 (* ---- schedule enumeration ----------------------------------------------------------- *)
 AllFinished == \A w \in W : Finished(w)
+\* Partial-order reduction for schedule enumeration: body steps, raw writes, close and the return
+\* touch only the writer's own open file, so they commute with every step of the other writer;
+\* only the directory-level operations (mkdir, exclusive open, rename, unlink) are interleaved in
+\* every order.  While some writer is in a local phase, the first such writer moves.
+LocalPhase(w) == ~Finished(w) /\ (wr[w].pc \in {"body", "closing", "done", "failed"} \/ (wr[w].pc = "idle" /\ dir))
+Canonical == LET L == {x \in W : LocalPhase(x)} IN
+                L # {} => LET v == CHOOSE x \in L : TRUE IN wr'[v] # wr[v]
+\* at most one abnormal event (crash, injected OSError, body exception) per enumerated schedule
+Abnormal == Cardinality({w \in W : wr[w].pc = "dead"}) + (Faults - faults)
+            + Cardinality({w \in W : wr[w].err = "body"})
+OneAbnormal == Abnormal <= 1
+\* two writers: the first replaces an existing file, the second creates a new one
+MixedOrig == \A w, v \in W : (w # v /\ init0.orig[w] = init0.orig[v]) => FALSE
 EmitPath == AllFinished' => PrintT(ToJson([tag |-> "PATH", init |-> init0, ev |-> hist']))
 =============================================================================
